@@ -1,7 +1,7 @@
 SPECIFICATION Spec
 CONSTANTS
   MaxBlocks = 2
-  MaxTxs = 3
+  MaxTxs = 2
   Kinds = {"cosmos", "ok", "vmerr", "failed", "refused"}
   BlockChoices <- McBlocks
   MaxLen <- McMaxLen
